@@ -15,10 +15,13 @@ pub mod c08;
 pub mod c09;
 pub mod c10;
 pub mod c11;
+pub mod c12;
+pub mod c13;
 pub mod c15;
 pub mod c16;
 pub mod c17;
 pub mod c18;
+pub mod legs;
 
 pub struct LangSet {
     pub apis: Vec<Box<dyn Api>>,
@@ -59,6 +62,8 @@ pub fn run(ctx: &Ctx) -> Outcome {
         "C11" => c11::run(ctx),
         "C17" => c17::run(ctx),
         "C18" => c18::run(ctx),
+        "C12" => c12::run(ctx),
+        "C13" => c13::run(ctx),
         other => {
             println!("ERROR unknown or unbuilt property {}", other);
             Outcome { exit_code: 2 }
@@ -83,13 +88,22 @@ pub fn replay(ctx: &Ctx, case: &J) -> Vec<String> {
         "C11" => c11::replay(case),
         "C17" => c17::replay(case),
         "C18" => c18::replay(case),
+        "C12" => c12::replay(case),
+        "C13" => c13::replay(case),
         other => vec![format!("replay not available for {}", other)],
     }
 }
 
 /// entry point of child-process workers (C03 / C14); filled in by those monitors
-pub fn worker_main(_args: &[String]) -> i32 {
-    2
+pub fn worker_main(args: &[String]) -> i32 {
+    crate::core::install_panic_hook();
+    match args.first().map(|s| s.as_str()) {
+        Some("c12") => c12::worker(&args[1..]),
+        _ => {
+            eprintln!("unknown worker {:?}", args.first());
+            2
+        }
+    }
 }
 
 pub fn dropped_fillers_note(ls: &LangSet) -> Option<String> {
